@@ -43,6 +43,7 @@ def run(ctx):
     parity_rule(ctx)
     s = Sib(ctx)
     s.multislater_restricted_vs_unrestricted()
+    s.multislater_reference_pairing()
 
 
 def _assign_targets(fn_node, name: str):
